@@ -53,7 +53,11 @@ Proof. exact mint_fn_total. Qed.
 Print Assumptions C01_mint_total.
 
 (* the DA end blocker (state machine of C07, thresholds of C09, slash epoch) returns Ok for every
-   parameter set Params.Validate accepts after the repair, at every height and time *)
+   parameter set Params.Validate accepts after the repair, at every height and time, and for ALL
+   stored invalidity and proof records: [da_inv] constrains the parameters, the shard counts of the
+   items and two counters only - the index lists of the records ([Da.v_idx], [Da.p_idx]) are
+   arbitrary lists over Z (negative, beyond the shard count, repeated, empty: Msg/SubmitInvalidity
+   stores whatever it is sent, known finding C07-F1; the code de-duplicates them through a map) *)
 Theorem C01_da_end_total : forall height now i, da_inv i -> exists r, da_end true height now i = Ok r.
 Proof. exact da_end_total. Qed.
 Print Assumptions C01_da_end_total.
